@@ -9,3 +9,6 @@ import BezierVerif.Props.C18
 import BezierVerif.Props.C20S
 import BezierVerif.Props.C20
 import BezierVerif.Props.C04
+import BezierVerif.Props.Roots
+import BezierVerif.Props.C02
+import BezierVerif.Props.C03
